@@ -105,14 +105,6 @@ Proof.
         repeat split; auto. cbn [drive_outs app]. rewrite O1. reflexivity.
 Qed.
 
-Lemma ssorted_in_lookup l k v : ssorted l -> In (k, v) l -> sl_lookup k l = Some v.
-Proof.
-  induction l as [|[k' v'] l IH]; [contradiction|]. intros [G S] [Heq|Hin]; cbn [sl_lookup].
-  - injection Heq as -> ->. rewrite Z.eqb_refl. reflexivity.
-  - cbn [fst] in G. unfold keys_gt in G. rewrite Forall_forall in G. pose proof (G _ Hin) as Hg.
-    cbn in Hg. destruct (Z.eqb_spec k k'); [lia|]. apply IH; assumption.
-Qed.
-
 Lemma ssorted_nodup l : ssorted l -> NoDup (map fst l).
 Proof.
   induction l as [|[k v] l IH]; [constructor|]. intros [G S]. cbn [map fst]. constructor; [|auto].
